@@ -11,7 +11,7 @@ from concurrent.futures import ThreadPoolExecutor
 from pathlib import Path
 
 SLOTS = 4
-PIDS = [f"C{i:02d}" for i in range(1, 21)]
+PIDS = os.environ.get("BN_PIDS", " ".join(f"C{i:02d}" for i in range(1, 21))).split()   # BN_PIDS="C10 C12": probe some checks only
 
 
 def sh(cmd, cwd=None, env=None, timeout=7200):
@@ -66,7 +66,11 @@ def main():
     Path("/verif/benign").mkdir(exist_ok=True)
     p = Path("/verif/benign/results.json")
     old = json.loads(p.read_text()) if p.exists() else {}
-    old.update(res)
+    for k, v in res.items():
+        if os.environ.get("BN_PIDS") and k in old and "alarms" in old[k] and "alarms" in v:
+            v["alarms"] = {**{a: b for a, b in old[k]["alarms"].items() if a not in PIDS}, **v["alarms"]}   # partial probe: keep the other columns
+            v["partial_reprobe"] = sorted(set(old[k].get("partial_reprobe", [])) | set(PIDS))
+        old[k] = v
     p.write_text(json.dumps(old, indent=1, sort_keys=True))
 
 
